@@ -132,6 +132,11 @@ class World:
             return f"garbled:{arr.tolist()}"
         return int(round(base))
 
+    @staticmethod
+    def n_values(o):
+        assoc = ASSOC.get(type(o).__name__, "OBJECT")
+        return {"VERTEX": getattr(o, "n_vertices", None), "CELL": getattr(o, "n_cells", None)}.get(assoc) or 2
+
     def values(self, tok, n):
         return float(tok) + 0.25 * np.arange(n)
 
@@ -173,9 +178,59 @@ class World:
             self.ent(a["s"]).allow_delete = bool(a["b"])
         elif act == "SetVal":
             d = self.ent(a["s"])
-            d.values = self.values(a["v"], len(np.asarray(d.values).ravel()))
-        elif act == "Move":
+            new = self.values(a["v"], self.n_values(d.parent))
+            if self.variant % 2 and d.values is not None:   # edit the array the getter returned, in place, assign it back
+                arr = d.values
+                arr[:] = new
+                d.values = arr
+            else:
+                d.values = new
+        elif act in ("Move", "MoveSame"):
             self.ent(a["s"]).parent = self.ent(a["p"])
+        elif act == "AddDataFails":
+            o = self.ent(a["p"])
+            cname = type(o).__name__
+            assoc = ASSOC.get(cname, "OBJECT")
+            n = {"VERTEX": getattr(o, "n_vertices", None), "CELL": getattr(o, "n_cells", None)}.get(assoc) or 2
+            known = {id(e) for e in self.side.values()}
+            try:
+                o.add_data({a["n"]: {"values": self.values(1, n), "association": assoc}}, compression=10)
+            finally:
+                new = [c for c in o.children if not _is_pg(c) and id(c) not in known]
+                if len(new) == 1:
+                    self.bind(a["s"], new[0])
+        elif act == "StripOpt":
+            import h5py
+            with h5py.File(self.path, "r+") as f:
+                base = f[list(f)[0]]
+                cont = {"G": "Groups", "O": "Objects", "D": "Data"}[kind(a["s"])]
+                node = base[cont]["{" + str(self.slot2uid[int(a["s"])]) + "}"]
+                for k in ("Partially hidden", "Public"):
+                    if k in node.attrs:
+                        del node.attrs[k]
+        elif act == "SaveAs":
+            import hashlib
+            new_path = self.path.replace(".geoh5", "_saved.geoh5")
+            if os.path.exists(new_path):
+                os.remove(new_path)
+            ws.save_as(new_path)
+            self.side = {}     # handles obtained before save_as belong to the old tree
+            gc.collect()
+            self.old_path = self.path
+            self.old_sha = hashlib.sha256(open(self.old_path, "rb").read()).hexdigest()
+            self.path = new_path
+            self.rebind()
+        elif act == "Helper":
+            from geoh5py.shared.utils import fetch_active_workspace
+            try:
+                with fetch_active_workspace(ws, mode=a["m"]):
+                    if a["exc"]:
+                        raise _Abort()
+            except _Abort:
+                pass
+            if a["reopened"]:
+                self.side = {}
+                gc.collect()
         elif act == "AddToGroup":
             o = self.ent(a["o"])
             pgr = o.add_data_to_group([self.ent(a["d"])], a["n"])
@@ -380,6 +435,17 @@ class World:
             live_reg.add(str(self.slot_of(uid)))
         return {"mem": mem, "kids": kids, "pg": pgs, "reg_live": sorted(live_reg)}
 
+    def check_saved_original(self):
+        """after save_as the original file must never change again and the workspace must work on the new file"""
+        if getattr(self, "old_sha", None) is None:
+            return None
+        import hashlib
+        if hashlib.sha256(open(self.old_path, "rb").read()).hexdigest() != self.old_sha:
+            return "the file the workspace was saved from changed after save_as"
+        if str(self.ws.h5file) != str(self.path):
+            return f"after save_as the workspace works on {self.ws.h5file}"
+        return None
+
     def snap(self):
         if self.ws._geoh5:  # pylint: disable=protected-access
             return h5snap.snapshot(self.ws.geoh5)
@@ -404,7 +470,8 @@ class World:
                 if s != 0:
                     fnode[str(s)] = {"on": True, "name": node["attrs"].get("Name"),
                                      "flag": bool(node["attrs"].get("Allow delete")), "val": val,
-                                     "cont": cont}
+                                     "cont": cont,
+                                     "opt": "Partially hidden" in node["attrs"] and "Public" in node["attrs"]}
                 for lc, links in node["links"].items():
                     for cu in links:
                         flink.add((str(s), str(sl(cu))))
@@ -429,8 +496,14 @@ def _as_map(m):
 
 
 # ---------------------------------------------------------------------- expected projections from the model
+def _val(s, r):
+    if kind(s) != "D":
+        return 0
+    return r["val"] if r["val"] != 0 else None     # token 0 = a data node without values (failed write)
+
+
 def expect_live(st):
-    mem = {s: {"par": r["par"], "name": r["name"], "flag": r["flag"], "val": r["val"] if kind(s) == "D" else 0}
+    mem = {s: {"par": r["par"], "name": r["name"], "flag": r["flag"], "val": _val(s, r)}
            for s, r in st["mem"].items() if r["par"] != -1}
     kids = {c: sorted(str(x) for x in v) for c, v in st["kids"].items() if c == "0" or st["mem"][c]["par"] != -1}
     pgs = {p: {"owner": r["owner"], "name": r["name"], "props": sorted(str(x) for x in r["props"])}
@@ -439,8 +512,8 @@ def expect_live(st):
 
 
 def expect_file(st):
-    fnode = {s: {"on": True, "name": r["name"], "flag": r["flag"], "val": r["val"] if kind(s) == "D" else 0,
-                 "cont": {"G": "Groups", "O": "Objects", "D": "Data"}[kind(s)]}
+    fnode = {s: {"on": True, "name": r["name"], "flag": r["flag"], "val": _val(s, r),
+                 "cont": {"G": "Groups", "O": "Objects", "D": "Data"}[kind(s)], "opt": st["fopt"][s]}
              for s, r in st["fnode"].items() if r["on"]}
     flink = sorted((str(a), str(b)) for a, b in st["flink"])
     fpg = {p: {"owner": r["owner"], "name": r["name"], "props": sorted(str(x) for x in r["props"])}
@@ -557,7 +630,7 @@ def replay_path(item):
                 if w.ws.geoh5.mode != post["mode"]:
                     bad("handle-mode", f"handle mode {w.ws.geoh5.mode} expected {post['mode']}", "C10")
             # ---- footprint (C09), on the implementation
-            if before is not None and lab["act"] not in ("Close",):
+            if before is not None and lab["act"] not in ("Close", "StripOpt", "SaveAs"):
                 after = h5snap.node_digests(snap)
                 d = _footprint(w, before, after, lab, pre)
                 if d:
@@ -568,7 +641,15 @@ def replay_path(item):
                 if after != before:
                     bad("close-changes-file", f"close changed {_changed(before, after)}", "C09")
             # ---- closed file: handles released (C11), layout (C02)
-            if post["mode"] == "closed" and lab["act"] == "Close":
+            d = w.check_saved_original()
+            if d:
+                bad("save-as-original-disturbed", d, "C11")
+                return viol
+            if post["mode"] == "closed" and w.ws._geoh5:  # pylint: disable=protected-access
+                bad("handle-open-when-closed", f"after {lab['act']} the specification says closed, the handle is open "
+                    f"in mode {w.ws.geoh5.mode}", "C11")
+                return viol
+            if post["mode"] == "closed" and lab["act"] in ("Close", "Helper"):
                 import h5py
                 n_open = h5py.h5f.get_obj_count(h5py.h5f.OBJ_ALL, h5py.h5f.OBJ_FILE | h5py.h5f.OBJ_GROUP | h5py.h5f.OBJ_DATASET | h5py.h5f.OBJ_ATTR)
                 if n_open:
